@@ -2,6 +2,9 @@ package checks
 
 import (
 	"math/big"
+	"regexp"
+
+	compact_time "github.com/kstenerud/go-compact-time"
 
 	"github.com/cockroachdb/apd/v2"
 
@@ -51,6 +54,38 @@ func numMismatchSig(a []ev.Event, x, y *ev.Node) string {
 	src := a[x.Src]
 	if src.K == ev.BFLOAT && bigFloatRoundedToDecimal(src.BF, y.Val) {
 		return "mismatch:num@bigfloat-rounded-to-decimal"
+	}
+	return ""
+}
+
+var cteAreaLocRe = regexp.MustCompile(`^[A-Z][A-Za-z0-9_./+-]*$`)
+var cteMediaTypeRe = regexp.MustCompile("^[a-zA-Z][a-zA-Z0-9!#$%&'*+.^_`|~{}-]*/[a-zA-Z0-9!#$%&'*+.^_`|~{}-]+$")
+
+// notCTEExpressible names the first value in a log that the CTE grammar has no spelling for
+// (time zone area/location or media type outside the grammar's character set), or "".
+func notCTEExpressible(log []ev.Event) string {
+	for _, e := range log {
+		switch e.K {
+		case ev.TIME:
+			z := e.T.Timezone
+			if e.T.Type != compact_time.TimeTypeDate && z.Type == compact_time.TimezoneTypeAreaLocation {
+				if !cteAreaLocRe.MatchString(z.ShortAreaLocation) || !cteAreaLocRe.MatchString(z.LongAreaLocation) {
+					return "tz-arealocation-outside-cte-grammar"
+				}
+			}
+		case ev.MEDIA, ev.MBEGIN:
+			if !cteMediaTypeRe.MatchString(e.S) {
+				return "media-type-outside-cte-grammar"
+			}
+		case ev.BDFLOAT:
+			// the CTE parser reads long decimal floats with apd.NewFromString, which limits exponents to +-100000
+			if e.BD != nil && e.BD.Form == 0 {
+				adj := int64(e.BD.Exponent) + e.BD.NumDigits() - 1
+				if adj > 99999 || adj < -99999 || e.BD.Exponent > 99999 || e.BD.Exponent < -99999 {
+					return "decimal-exponent-beyond-cte-parser-limit"
+				}
+			}
+		}
 	}
 	return ""
 }
